@@ -14,6 +14,7 @@ pub mod safe_gen;
 pub mod safety;
 pub mod chain_gen;
 pub mod swz_gen;
+pub mod bm;
 
 use serde_json::{json, Value};
 use std::io::{BufRead, Write};
